@@ -252,3 +252,50 @@ func (d *dumper) val(v reflect.Value, depth int) {
 		fmt.Fprintf(d.b, "%v", v.Interface())
 	}
 }
+
+// Cyclic reports whether the packet reference graph of the model (object fields and match
+// alternatives) has a cycle. Generators recurse along it, and a stack overflow cannot be recovered,
+// so in-process callers skip cyclic models (C11 explores them in worker subprocesses).
+func Cyclic(m *Model) bool {
+	state := map[*model.Packet]int{}
+	var visit func(p *model.Packet) bool
+	visit = func(p *model.Packet) bool {
+		if p == nil {
+			return false
+		}
+		switch state[p] {
+		case 1:
+			return true
+		case 2:
+			return false
+		}
+		state[p] = 1
+		for _, f := range p.Fields {
+			if f == nil {
+				continue
+			}
+			switch a := f.Attr.(type) {
+			case *model.ObjectFieldAttribute:
+				if a != nil && visit(a.RefPacket) {
+					return true
+				}
+			case *model.MatchFieldAttribute:
+				if a != nil {
+					for _, pr := range a.MatchPairs {
+						if visit(m.M.PacketsMap[pr.Value]) {
+							return true
+						}
+					}
+				}
+			}
+		}
+		state[p] = 2
+		return false
+	}
+	for _, p := range m.M.Packets {
+		if visit(p) {
+			return true
+		}
+	}
+	return false
+}
